@@ -135,7 +135,10 @@ pub fn cases(deep: bool) -> Vec<(Case, Vec<&'static [&'static str]>)> {
     const O1: &[&str] = &[
         "definition: forall X (d(X) <-> p(X) and not q(X)). lemma: forall X (d(X) -> p(X)).", "lemma: forall X (p(X) -> q(X)).", "lemma: forall X (q(X) -> p(X)). lemma: exists X (p(X)).",
         "inductive-lemma: forall N$i (N$i >= 0 -> (q(N$i) -> p(N$i))).", "inductive-lemma: forall N$i (N$i >= 0 -> p(N$i)).", "inductive-lemma: forall N$i (N$i >= 1 -> (q(N$i) -> p(N$i))). lemma: forall X (q(X) and X = 1 -> p(X)).",
-        "inductive-lemma: forall N$i (N$i >= 0 -> not q(N$i)).", "inductive-lemma(forward): forall N$i (N$i >= 0 -> (p(N$i) -> q(N$i))). lemma(backward): forall X (p(X) -> q(X)).", "definition: forall X (d(X) <-> q(X) and not p(X)). definition: forall X (e(X) <-> d(X) or p(X)). lemma: forall X (e(X) -> q(X)).",
+        "inductive-lemma: forall N$i (N$i >= 0 -> not q(N$i)).",
+        // a lemma after an inductive lemma that holds: the later lemma must still be proved on its own
+        "inductive-lemma: forall N$i (N$i >= 0 -> (p(N$i) -> q(N$i))). lemma: forall X (q(X) -> p(X)).", "inductive-lemma: forall N$i (N$i >= 0 -> (p(N$i) -> q(N$i))). lemma: #false.",
+        "lemma: forall X (p(X) -> q(X)). inductive-lemma: forall N$i (N$i >= 0 -> (p(N$i) -> q(N$i))). inductive-lemma: forall N$i (N$i >= 0 -> (p(N$i) -> p(N$i))). lemma(forward): forall X (q(X) -> p(X)). lemma(backward): exists X (p(X) and not q(X)).", "inductive-lemma(forward): forall N$i (N$i >= 0 -> (p(N$i) -> q(N$i))). lemma(backward): forall X (p(X) -> q(X)).", "definition: forall X (d(X) <-> q(X) and not p(X)). definition: forall X (e(X) <-> d(X) or p(X)). lemma: forall X (e(X) -> q(X)).",
         // (the extent of a defined predicate must be finite for the enumeration: the bodies are guarded by an atom) "lemma: forall X (p(X) <-> q(X)). lemma: #false.",
     ];
     for (outlines, progs, ug) in [(O0, P0, UG0), (O1, P1, UG1)] {
@@ -143,6 +146,9 @@ pub fn cases(deep: bool) -> Vec<(Case, Vec<&'static [&'static str]>)> {
             let n = progs.len();
             let ijs: Vec<(usize, usize)> = if deep { (0..n.min(8)).flat_map(|i| (0..n.min(8)).map(move |j| (i, j))).collect() } else { vec![(oi % n, (oi + 1) % n), ((oi * 2 + 3) % n, (oi * 2 + 3) % n), ((oi + 5) % n, oi % n)] };
             for (i, j) in ijs { k += 1; out.push((Case { left: Some(progs[i]), program: progs[j], spec: None, ug, outline: Some(o) }, flags_for(k))); }
+            // pairs that are known to differ in both directions, and one that does not: a lemma that is false in a difference must not help
+            let fixed: &[(&str, &str)] = if ug == UG0 { &[("p :- q.", "p."), ("p.", "p :- q."), ("p :- q.", "p :- not not q."), ("{p} :- q.", "p :- q.")] } else { &[("p(X) :- q(X), X != 1.", "p(X) :- q(X)."), ("p(X) :- q(X).", "p(X) :- q(X), X != 1."), ("p(0) :- q(0). p(1) :- q(1).", "p(X) :- q(X), X != 1."), ("{p(X)} :- q(X).", "p(X) :- q(X).")] };
+            for (l, r) in fixed { k += 1; out.push((Case { left: Some(l), program: r, spec: None, ug, outline: Some(o) }, flags_for(k))); }
         }
     }
     out
@@ -245,7 +251,7 @@ pub fn check_case(c: &Case, flag_sets: &[&[&str]], st: &mut VStats, fails: &mut 
         // predicates that no rule or formula mentions are not declared; that is fine (missing), they are empty
         let _ = missing;
         let atoms = atoms_of(&names);
-        if atoms.len() > 14 { bad("too many ground atoms for exhaustive enumeration", fails); return; }
+        if atoms.len() > 14 { return; } // too many ground atoms for exhaustive enumeration: the task is skipped (it is not counted)
         let interps = subsets(&atoms);
         // placeholders are inputs: every assignment of values to them is one more family of interpretations
         let placeholders: Vec<(String, fol::Sort)> = ug.placeholders().into_iter().map(|c| (c.name, c.sort)).collect();
@@ -336,7 +342,11 @@ pub fn check_case(c: &Case, flag_sets: &[&[&str]], st: &mut VStats, fails: &mut 
         }
         aspsem::set_placeholders(HashMap::new());
         per_flags.insert(flags.join(" "), (flag_fw, flag_bw, interps.clone()));
-        for m in complaints_all.into_iter().take(2) { fails.push(Failure { property: "C02", input: what.clone(), detail: m }); }
+        for m in complaints_all.into_iter().take(2) {
+            // with a proof outline the same finding is a C13 matter: an unjustified claim was available as an axiom
+            if c.outline.is_some() { fails.push(Failure { property: "C13", input: what.clone(), detail: m.clone() }); }
+            fails.push(Failure { property: "C02", input: what.clone(), detail: m });
+        }
     }
     // C19: flag combinations of the same direction set agree
     let base: Vec<(&String, &(Vec<bool>, Vec<bool>, Vec<Atoms>))> = per_flags.iter().collect();
